@@ -40,6 +40,7 @@ def guardedFrom : Abs → List Op → Bool
     | .returnAuth => a.asserted && a.dec
     | .callAddr => true
     | .callAddrData => true
+    | .touchPeer => a.asserted && a.look && guardedFrom a rest
     | _ => guardedFrom (absStep a op) rest
 
 /-- the static guard -/
@@ -188,6 +189,16 @@ theorem inv_step {E : Env P} {data : Bytes} {a : Abs} {r r' : Regs P} {op : Op}
     · simp at hs
       subst hs
       exact ⟨i1, i2, i3, i4, i5, i6, i7, by simp [absStep], i9⟩
+  | touchPeer =>
+    simp only [step] at hs
+    split at hs
+    · cases hs
+    · simp at hs
+      subst hs
+      exact ⟨i1, i2, i3, i4, i5, i6, i7, i8, i9⟩
+    · simp at hs
+      subst hs
+      exact ⟨i1, i2, i3, i4, i5, i6, i7, i8, i9⟩
   | appendData =>
     simp only [step] at hs
     simp at hs
@@ -230,7 +241,10 @@ theorem runFrom_guarded_called {E : Env P} {data k : Bytes} {p : P} {wd : Option
       simp only [hs] at h
       have hi' := inv_step hi hs
       have hg' : guardedFrom (absStep a op) rest = true := by
-        cases op <;> first | (simpa [guardedFrom] using hg) | (simp only [step] at hs; (repeat' split at hs) <;> cases hs)
+        cases op <;> first
+          | (simpa [guardedFrom] using hg)
+          | (simp only [guardedFrom, Bool.and_eq_true] at hg; simpa [absStep] using hg.2)
+          | (simp only [step] at hs; (repeat' split at hs) <;> cases hs)
       exact ih _ _ hi' hg' h
     | error o =>
       simp only [hs] at h
@@ -274,6 +288,7 @@ theorem runFrom_guarded_called {E : Env P} {data k : Bytes} {p : P} {wd : Option
       | assertValid => simp only [step] at hs; (repeat' split at hs) <;> simp at hs
       | lookupPeer => simp only [step] at hs; (repeat' split at hs) <;> simp at hs
       | orLookupByAddr => simp only [step] at hs; (repeat' split at hs) <;> simp at hs
+      | touchPeer => simp only [step] at hs; (repeat' split at hs) <;> simp at hs
       | appendData => simp [step] at hs
       | callAddr => simp only [step] at hs; (repeat' split at hs) <;> simp at hs
       | callAddrData => simp only [step] at hs; (repeat' split at hs) <;> simp at hs
@@ -295,7 +310,10 @@ theorem runFrom_guarded_returned {E : Env P} {data kb : Bytes} {p : P} :
       simp only [hs] at h
       have hi' := inv_step hi hs
       have hg' : guardedFrom (absStep a op) rest = true := by
-        cases op <;> first | (simpa [guardedFrom] using hg) | (simp only [step] at hs; (repeat' split at hs) <;> cases hs)
+        cases op <;> first
+          | (simpa [guardedFrom] using hg)
+          | (simp only [guardedFrom, Bool.and_eq_true] at hg; simpa [absStep] using hg.2)
+          | (simp only [step] at hs; (repeat' split at hs) <;> cases hs)
       exact ih _ _ hi' hg' h
     | error o =>
       simp only [hs] at h
@@ -326,6 +344,7 @@ theorem runFrom_guarded_returned {E : Env P} {data kb : Bytes} {p : P} :
       | assertValid => simp only [step] at hs; (repeat' split at hs) <;> simp at hs
       | lookupPeer => simp only [step] at hs; (repeat' split at hs) <;> simp at hs
       | orLookupByAddr => simp only [step] at hs; (repeat' split at hs) <;> simp at hs
+      | touchPeer => simp only [step] at hs; (repeat' split at hs) <;> simp at hs
       | appendData => simp [step] at hs
       | callAddr => simp only [step] at hs; (repeat' split at hs) <;> simp at hs
       | callAddrData => simp only [step] at hs; (repeat' split at hs) <;> simp at hs
@@ -372,6 +391,77 @@ theorem runFrom_noAddrCall {E : Env P} {data : Bytes} {p : P} {wd : Option Bytes
       cases op <;> first
         | (simp at hn; done)
         | (simp only [step] at hs; (repeat' split at hs) <;> simp at hs)
+
+
+/-- what must hold for the stored Peer of key `k` to have been touched -/
+def TouchOK (E : Env P) (data k : Bytes) : Prop :=
+  ∃ kb e rem, unpackVarlenH E.strict data 23 = some (kb, e) ∧ E.verifySig E.S kb data = some (true, rem) ∧
+    E.net kb = some k
+
+/-- a guarded program updates the address book of a stored verified Peer only after the datagram's signature was
+    checked for exactly that Peer's key — whatever the final outcome of the wrapper (call or exception) -/
+theorem touchedFrom_guarded {E : Env P} {data k : Bytes} :
+    ∀ (prog : List Op) (a : Abs) (r : Regs P), Inv E data a r → guardedFrom a prog = true →
+      (r.touched = some k → TouchOK E data k) → touchedFrom E data prog r = some k → TouchOK E data k := by
+  intro prog
+  induction prog with
+  | nil => intro a r _ _ ht h; exact ht h
+  | cons op rest ih =>
+    intro a r hi hg ht h
+    simp only [touchedFrom] at h
+    cases hs : step E data r op with
+    | error o =>
+      simp only [hs] at h
+      exact ht h
+    | ok r' =>
+      simp only [hs] at h
+      have hi' := inv_step hi hs
+      by_cases hop : op = .touchPeer
+      · subst hop
+        simp only [guardedFrom, Bool.and_eq_true] at hg
+        obtain ⟨⟨hA, hL⟩, hrest⟩ := hg
+        have hrest' : guardedFrom (absStep a .touchPeer) rest = true := by simpa [absStep] using hrest
+        refine ih _ _ hi' hrest' ?_ h
+        intro htr
+        obtain ⟨i1, i2, i3, i4, i5, i6, i7, i8, i9⟩ := hi
+        obtain ⟨kb, v, rem, ha, hv, hr, hver⟩ := i5 (i1 hA)
+        obtain ⟨kb0, e, ha0, hu⟩ := i4 (i3 (i1 hA))
+        have hsv := i6 hA
+        obtain ⟨kb2, ha2, hpeer⟩ := i8 hL
+        rw [ha] at ha0 ha2
+        cases ha0
+        cases ha2
+        rw [hv] at hsv
+        cases hsv
+        simp only [step, hpeer] at hs
+        cases hn : E.net kb with
+        | none =>
+          simp [hn] at hs
+          subst hs
+          exact ht htr
+        | some k' =>
+          simp [hn] at hs
+          subst hs
+          simp at htr
+          subst htr
+          exact ⟨kb, e, rem, hu, hver, hn⟩
+      · have hg' : guardedFrom (absStep a op) rest = true := by
+          cases op <;> first
+            | (exact absurd rfl hop)
+            | (simpa [guardedFrom] using hg)
+            | (simp only [step] at hs; (repeat' split at hs) <;> cases hs)
+        refine ih _ _ hi' hg' ?_ h
+        intro htr
+        apply ht
+        -- no other statement writes `touched`
+        cases op <;> first
+          | (exact absurd rfl hop)
+          | (simp only [step] at hs
+             (repeat' split at hs) <;> first | (cases hs; done) | (simp at hs; subst hs; simpa using htr))
+
+theorem touchedBy_guarded {E : Env P} {data k : Bytes} {prog : List Op} (hg : guarded prog = true)
+    (h : touchedBy E prog data = some k) : TouchOK E data k :=
+  touchedFrom_guarded prog Abs.init {} (inv_init E data) hg (by simp) h
 
 /-- the entry points for `run` -/
 theorem run_guarded_called {E : Env P} {data k : Bytes} {p : P} {wd : Option Bytes} {prog : List Op}
